@@ -373,12 +373,12 @@ def check_session(ctx, h, script, app_cfg, cfg, client):
         if '<none>' in allowed:
             continue
         if kind == 'close' and got == 'Exception' and 'Exception' in allowed and not fail:
-            # the server refused the application's explicit close: what the connection can still
-            # do afterwards is server-specific; only the monitors remain in force
+            # the server refused the application's explicit close before touching the connection
+            # (Autobahn/Daphne validate the code first): nothing was delivered, the connection is
+            # what it was, and so is the model state - later operations are judged as before
             ctx.probe('explicit_close_rejected')
-            model_broken = True
             rejected_explicit = True
-            break
+            continue
         if fail:
             # R: once a send has failed on a lost connection only the protocol
             # monitor and ws.send_after_lost remain in force
